@@ -305,6 +305,7 @@ DORA_MOD_RUN = """
     fn c07_run() {
         let data = std::io::File::new("c07_requests.bin").read_as_bytes().get_or_panic();
         let rd = Rd(data = data, pos = 0);
+        println("C07START");
         while rd.pos < data.size() {
             let id = rd.word();
             let m = rd.word();
@@ -430,6 +431,18 @@ def build_dora_runner(ctx, specs_by_id):
     d = scratch("c07_dora_pkg")
     pkg = os.path.join(d, "boots")
     shutil.copytree(os.path.join(REPO, "pkgs", "boots"), pkg)
+    # The package's own unit tests must not run in the observer binary: the test runner executes every @Test in
+    # one process and the first failing assert ends it -- a defective assembler fails its own unit tests first
+    # and the C07 driver would never be reached. Only the annotation lines are removed (scratch copy only), the
+    # code under test is untouched.
+    for root, _, files in os.walk(pkg):
+        for fn in files:
+            if fn.endswith(".dora"):
+                path = os.path.join(root, fn)
+                src = open(path).read()
+                if "@Test" in src:
+                    with open(path, "w") as f:
+                        f.write(re.sub(r"^([ \t]*)@Test[ \t]*$", r"\1", src, flags=re.M))
     with open(os.path.join(pkg, "assembler", "x64.dora"), "a") as f:
         f.write(dora_module(specs_by_id))
     exe = os.path.join(d, "c07_dora_tests")
@@ -453,6 +466,7 @@ def _run_dora_shard(exe, d, part, ids):
     env = dict(os.environ)
     env.pop("DORA_FLAGS", None)
     restarts = 0
+    odd = None
     while pos < len(part):
         with open(os.path.join(d, "c07_requests.bin"), "wb") as f:
             f.write(b"".join(dora_encode(r, ids[r.spec.name]) for r in part[pos:]))
@@ -462,6 +476,9 @@ def _run_dora_shard(exe, d, part, ids):
             return results, "timeout", restarts
         n = 0
         done = False
+        if b"C07START" not in p.stdout:
+            return results, "the C07 driver was not reached (rc=%s): %s" % (
+                p.returncode, (p.stdout[-300:] + p.stderr[-500:]).decode(errors="replace")), restarts
         for ln in p.stdout.decode(errors="replace").split("\n"):
             k = ln.find("C07R ")
             if k >= 0:
@@ -485,9 +502,12 @@ def _run_dora_shard(exe, d, part, ids):
                          "msg": err.strip().split("\n")[0][:200] if err.strip() else ""}
         pos += n + 1
         restarts += 1
+        if not (101 <= p.returncode <= 111) and odd is None:
+            # not a Dora trap (assert = 102): a signal or runtime failure, reported as inconclusive
+            odd = "process ended with rc=%s (not a trap) at request %r" % (p.returncode, r.line())
         if restarts > 3000:
             return results, "too many restarts", restarts
-    return results, None, restarts
+    return results, odd, restarts
 
 
 def run_dora(ctx, exe, reqs, risky, ids, name):
@@ -523,6 +543,7 @@ class Verifier:
         self.keys = set()
         self.suppressed = 0
         self.refused_classes = {}
+        self.dora_unexpected_refusals = []
         self.samples = {}
 
     def report(self, asm, req, res, kind, what, extra=None):
@@ -557,6 +578,8 @@ class Verifier:
                 ctx.count("%s_refused" % asm)
                 c = "%s:%s:%s" % (asm, r.spec.name, spec.shape(r.spec, r.toks))
                 self.refused_classes[c] = self.refused_classes.get(c, 0) + 1
+                if asm == "dora" and spec.plausible(r.spec, r.toks) and len(self.dora_unexpected_refusals) < 50:
+                    self.dora_unexpected_refusals.append({"request": r.line(), "refusal": res.get("msg", "")[:160]})
                 continue
             if st == "unknown":
                 ctx.violation("c07:uncovered-method:%s" % r.spec.name,
@@ -786,7 +809,11 @@ def run(ctx):
             "dora": {"public": len(dora_present), "instruction_methods": n_dora_instr, "covered": len(dora_specs),
                      "exercised_with_encoding": sum(1 for v in pm_dora.values() if v[0] > 0)},
         },
-        "refused_classes": dict(sorted(ver.refused_classes.items(), key=lambda kv: -kv[1])[:60]),
+        "refused_classes_rust_top": dict(sorted(((k, v) for k, v in ver.refused_classes.items() if k.startswith("rust:")),
+                                                key=lambda kv: -kv[1])[:40]),
+        "refused_classes_dora_top": dict(sorted(((k, v) for k, v in ver.refused_classes.items() if k.startswith("dora:")),
+                                                key=lambda kv: -kv[1])[:40]),
+        "dora_refused_although_rust_encoded": ver.dora_unexpected_refusals[:20],
         "refused_classes_total": len(ver.refused_classes),
         "violation_keys_suppressed_after_%d" % MAX_KEYS: ver.suppressed,
         "llvm_mc_invocations": llvm.calls,
@@ -839,7 +866,7 @@ def make_dora_requests(ctx, rust_reqs, rust_results, dora_specs):
     picked = picked[:n_risky] + [r for r in risky if r not in picked][:max(0, n_risky - len(picked))]
     ctx.count("dora_only_methods", len(only))
     ctx.count("dora_risky_requests_available", len(risky))
-    res, nrisky = [], []
+    res = []
     for r in normal + picked:
         q = Req(len(res), dnames[r.spec.name], r.avx, r.pre, r.toks)
         res.append(q)
